@@ -10,7 +10,9 @@ use saito_core::core::consensus::transaction::{Transaction, TransactionType};
 use saito_core::core::defs::*;
 use serde::{Deserialize, Serialize};
 
+use crate::adversary::{apply_block_edit, edited_tx, force_accept, BlockEdit, EditCtx, TxEdit};
 use crate::world::*;
+use saito_core::core::consensus::slip::Slip;
 
 #[derive(Debug, Clone, Serialize, Deserialize, PartialEq, Eq, Hash)]
 pub struct TxSpec {
@@ -37,6 +39,13 @@ pub struct BlockSpec {
     pub creator: u8,
     pub miner: u8,
     pub txs: Vec<TxSpec>,
+    /// adversarial content: an invalid transaction (edit, attacker key, victim key) included by a
+    /// producer that does not validate (header consistent with the invalid content)
+    #[serde(default)]
+    pub bad_tx: Option<(TxEdit, u8, u8)>,
+    /// adversarial header lie applied after honest construction
+    #[serde(default)]
+    pub corrupt: Option<BlockEdit>,
 }
 
 #[derive(Debug, Clone, Serialize, Deserialize, PartialEq, Eq, Hash)]
@@ -72,6 +81,8 @@ pub struct Built {
     pub node: Node,
     pub tips: BTreeMap<SaitoHash, Node>,
     pub truncated: bool,
+    /// invalid[i]: block i is invalid by construction (adversarial edit that was not a no-op)
+    pub invalid: Vec<Option<String>>,
     /// blocks the honest builder produced but its own node did not accept as the new tip
     /// (parent index, block, result) -- a C07 matter; never part of `blocks`
     pub rejected_own: Vec<(usize, Block, &'static str)>,
@@ -148,7 +159,13 @@ fn gts_in_last(blocks: &[Block], parent: &[Option<usize>], from: usize, n: usize
     (c, depth)
 }
 
-pub async fn replay_into(node: &mut Node, blocks: &[Block], parent: &[Option<usize>], tip: usize) {
+pub async fn replay_into(
+    node: &mut Node,
+    blocks: &[Block],
+    parent: &[Option<usize>],
+    invalid: &[Option<String>],
+    tip: usize,
+) {
     let mut path = vec![tip];
     let mut i = tip;
     while let Some(p) = parent[i] {
@@ -157,8 +174,11 @@ pub async fn replay_into(node: &mut Node, blocks: &[Block], parent: &[Option<usi
     }
     path.reverse();
     for i in path {
-        let r = node.add(blocks[i].clone()).await;
-        debug_assert!(matches!(res_str(&r), "added_lc"), "replay of honest branch failed: {}", res_str(&r));
+        if invalid.get(i).map(|x| x.is_some()).unwrap_or(false) {
+            force_accept(node, &blocks[i]).await;
+            continue;
+        }
+        let _ = node.add_guarded(blocks[i].clone()).await;
     }
 }
 
@@ -212,7 +232,99 @@ pub fn plan_txs(node: &Node, bs: &BlockSpec, block_id: u64, ts: u64) -> Vec<Tran
 
 /// Build one honest block on `parent_hash` using `node` (whose longest chain ends at the parent).
 /// Returns None if a required golden ticket is too expensive to mine (history gets truncated).
+/// Outputs spent earlier on the node's current longest chain / outputs older than the window that
+/// still sit in the utxoset (material for the SpentInput / ExpiredInput edits).
+pub fn spent_and_expired(node: &Node, for_block_id: u64) -> (Vec<Slip>, Vec<Slip>) {
+    let mut spent = vec![];
+    let mut h = node.chain.get_latest_block_hash();
+    while let Some(b) = node.chain.blocks.get(&h) {
+        for t in &b.transactions {
+            if t.transaction_type == TransactionType::Normal {
+                for s in &t.from {
+                    if s.amount > 0 {
+                        spent.push(s.clone());
+                    }
+                }
+            }
+        }
+        h = b.previous_block_hash;
+        if spent.len() > 4 {
+            break;
+        }
+    }
+    let mut expired: Vec<Slip> = node
+        .chain
+        .utxoset
+        .iter()
+        .filter(|(_, v)| **v)
+        .filter_map(|(k, _)| Slip::parse_slip_from_utxokey(k).ok())
+        .filter(|s| s.amount > 0 && s.block_id + node.ncfg.gp < for_block_id)
+        .filter(|s| (0u8..8).any(|i| key(i).0 == s.public_key))
+        .collect();
+    expired.sort_by(|a, b| a.utxoset_key.cmp(&b.utxoset_key));
+    (spent, expired)
+}
+
 pub async fn build_block(
+    node: &Node,
+    parent_hash: SaitoHash,
+    bs: &BlockSpec,
+    want_gt: bool,
+    salt: u64,
+) -> Option<Block> {
+    build_block_ex(node, parent_hash, bs, want_gt, salt).await.map(|x| x.0)
+}
+
+/// Returns (block, Some(reason) if invalid by construction).
+pub async fn build_block_ex(
+    node: &Node,
+    parent_hash: SaitoHash,
+    bs: &BlockSpec,
+    want_gt: bool,
+    salt: u64,
+) -> Option<(Block, Option<String>)> {
+    if bs.bad_tx.is_none() && bs.corrupt.is_none() {
+        return build_block_honest(node, parent_hash, bs, want_gt, salt).await.map(|b| (b, None));
+    }
+    let pb = node.chain.get_block(&parent_hash)?;
+    let (pts, pid, pdiff) = (pb.timestamp, pb.id, pb.difficulty);
+    let hb = node.ncfg.heartbeat;
+    // adversarial producers use dt >= 2*heartbeat so that routing work is never the reason
+    let ts = pts + (bs.dt as u64).max(2 * hb);
+    let creator = key(bs.creator);
+    let gt = if want_gt { Some(node.mine_gt(parent_hash, &key(bs.miner), salt).await?) } else { None };
+    let mut txs = plan_txs(node, bs, pid + 1, ts);
+    let mut reason: Option<String> = None;
+    if let Some((edit, att, vic)) = bs.bad_tx {
+        let (spent, expired) = spent_and_expired(node, pid + 1);
+        let ctx = EditCtx { node, attacker: att, victim: vic, for_block_id: pid + 1, ts: ts + 77, spent: &spent, expired: &expired };
+        if let Some(bad) = edited_tx(edit, &ctx) {
+            // keep honest txs that do not collide with the bad one's inputs
+            let bad_inputs: BTreeSet<SaitoUTXOSetKey> = bad.from.iter().filter(|s| s.amount > 0).map(|s| s.get_utxoset_key()).collect();
+            txs.retain(|t| !t.from.iter().any(|s| s.amount > 0 && bad_inputs.contains(&s.get_utxoset_key())));
+            txs.push(bad);
+            reason = Some(format!("tx:{:?}", edit));
+        }
+    }
+    if txs.is_empty() && gt.is_none() {
+        txs.push(carrier_tx(&creator, ts));
+    }
+    let mut b = match node.make_block_as(&creator, parent_hash, ts, txs, gt).await {
+        Ok(b) => b,
+        Err(_) => return None, // producer refused (e.g. in-block double spend detected at create)
+    };
+    if let Some(e) = bs.corrupt {
+        if apply_block_edit(&mut b, e, &creator, pdiff) {
+            reason = Some(match reason {
+                Some(r) => format!("{r}+hdr:{:?}", e),
+                None => format!("hdr:{:?}", e),
+            });
+        }
+    }
+    Some((b, reason))
+}
+
+pub async fn build_block_honest(
     node: &Node,
     parent_hash: SaitoHash,
     bs: &BlockSpec,
@@ -257,6 +369,7 @@ pub async fn build_history(spec: &HistSpec) -> Built {
     let mut last_hash = g.hash;
     let mut truncated = false;
     let mut rejected_own = vec![];
+    let mut invalid: Vec<Option<String>> = vec![None];
 
     for (n, bs) in spec.blocks.iter().enumerate() {
         let pidx = match bs.parent {
@@ -268,7 +381,7 @@ pub async fn build_history(spec: &HistSpec) -> Built {
             Some(n) => n,
             None => {
                 let mut nn = Node::new(spec.ncfg, 0);
-                replay_into(&mut nn, &blocks, &parent, pidx).await;
+                replay_into(&mut nn, &blocks, &parent, &invalid, pidx).await;
                 nn
             }
         };
@@ -284,7 +397,7 @@ pub async fn build_history(spec: &HistSpec) -> Built {
         } else {
             bs.gt
         };
-        let b = match build_block(&node, phash, bs, want_gt, n as u64 + 1).await {
+        let (b, why_invalid) = match build_block_ex(&node, phash, bs, want_gt, n as u64 + 1).await {
             Some(b) => b,
             None => {
                 tips.insert(phash, node);
@@ -292,11 +405,26 @@ pub async fn build_history(spec: &HistSpec) -> Built {
                 break;
             }
         };
-        let r = node.add(b.clone()).await;
-        let rs = res_str(&r);
+        if why_invalid.is_some() {
+            // invalid by construction: never offered to the builder's validator; the builder is made
+            // to treat it as accepted so that honest-looking children can be built on top of it.
+            // The parent's own builder is recreated on demand (replay) if it is extended again.
+            force_accept(&mut node, &b).await;
+            blocks.push(b.clone());
+            parent.push(Some(pidx));
+            invalid.push(why_invalid);
+            last_hash = b.hash;
+            tips.insert(b.hash, node);
+            continue;
+        }
+        let rs = match node.add_guarded(b.clone()).await {
+            Some(r) => res_str(&r),
+            None => "panicked",
+        };
         if rs == "added_lc" {
             blocks.push(b.clone());
             parent.push(Some(pidx));
+            invalid.push(None);
             last_hash = b.hash;
             tips.insert(b.hash, node);
         } else {
@@ -313,7 +441,7 @@ pub async fn build_history(spec: &HistSpec) -> Built {
         None => {
             let mut nn = Node::new(spec.ncfg, 0);
             let idx = blocks.iter().position(|b| b.hash == last_hash).unwrap_or(0);
-            replay_into(&mut nn, &blocks, &parent, idx).await;
+            replay_into(&mut nn, &blocks, &parent, &invalid, idx).await;
             nn
         }
     };
@@ -324,6 +452,7 @@ pub async fn build_history(spec: &HistSpec) -> Built {
         node,
         tips,
         truncated,
+        invalid,
         rejected_own,
     }
 }
@@ -387,6 +516,8 @@ pub fn arb_blockspec(fork: bool) -> impl Strategy<Value = BlockSpec> {
             creator,
             miner,
             txs,
+            bad_tx: None,
+            corrupt: None,
         })
 }
 
